@@ -1,6 +1,6 @@
 (* Dispatcher used by the correspondence runner: probe name + generic argument -> generic result.
    All glue between the text protocol and the model lives here, in Gallina. *)
-From MD Require Import Lib.Base Lib.Latin1 Model.Node Model.Keyword.
+From MD Require Import Lib.Base Lib.Latin1 Model.Node Model.Keyword Model.Engine.
 
 Definition bad_args : pval := VErr (L"bad-args").
 
@@ -9,6 +9,25 @@ Definition bytes_list (l : list pval) : list bytes :=
 
 Definition vnodes (l : list node) : pval := VList (map val_of_node l).
 Definition vints (l : list Z) : pval := VList (map VInt l).
+
+(* synthetic registry: value -> hits it reports (in registry order) *)
+Fixpoint table_search (tbl : list (bytes * list node)) (v : bytes) : list node :=
+  match tbl with
+  | [] => []
+  | (k, hs) :: rest => if beqb k v then hs else table_search rest v
+  end.
+
+Definition table_of_val (v : pval) : list (bytes * list node) :=
+  match v with
+  | VList entries =>
+      map (fun e => match e with
+                    | VList [VBytes k; VList hs] => (k, map node_of_val hs)
+                    | _ => ([], []) end) entries
+  | _ => []
+  end.
+
+Definition scan_node_z (search : bytes -> list node) (depth : Z) (n : node) : res node :=
+  if depth <=? 0 then Ok n else scan_node search (Z.to_nat depth) n.
 
 Definition probe (name : list N) (arg : pval) : pval :=
   if beqb name (L"find_keywords") then
@@ -26,5 +45,19 @@ Definition probe (name : list N) (arg : pval) : pval :=
   else if beqb name (L"latin1") then
     match arg with
     | VInt c => VList [VBool (uni_isupper (Z.to_N c)); VBool (uni_islower (Z.to_N c)); VBool (uni_isprintable (Z.to_N c))]
+    | _ => bad_args end
+  else if beqb name (L"scan_node") then
+    match arg with
+    | VList [tbl; VInt depth; n] =>
+        val_of_res val_of_node (scan_node_z (table_search (table_of_val tbl)) depth (node_of_val n))
+    | _ => bad_args end
+  else if beqb name (L"scan") then
+    match arg with
+    | VList [tbl; VInt depth; VBytes data] =>
+        val_of_res val_of_node (scan (table_search (table_of_val tbl)) depth data)
+    | _ => bad_args end
+  else if beqb name (L"sort_hits") then
+    match arg with
+    | VList hs => vnodes (sort_hits (map node_of_val hs))
     | _ => bad_args end
   else VErr (L"unknown-probe").
